@@ -569,6 +569,10 @@ SPECS['C05'] = {
 
 # C10 also owns the input-chunk independence obligations (defined with the data-path specs above)
 SPECS['C10']['obligations'] = SPECS['C10']['obligations'] + _tiling + _iteration
+_tnp = _pair('c11', 'tiling_nonpos', (120, 300), 'n<=40 rows, chunk size in [-60, 0], real DictDataWrapper over the numpy stub: refused, or every row once and in order', ['SourceDataWrapper.make_chunked_generator'],
+             replay=D + 'replay_tiling_nonpos', validate=D + 'replay_tiling_nonpos')
+for _c in ('C03', 'C10', 'C12'):
+    SPECS[_c]['obligations'] = SPECS[_c]['obligations'] + _tnp
 SPECS['C10']['stubs'] = SPECS['C10']['stubs'] + NP_STUBS
 SPECS['C10']['selftests'] = SPECS['C10']['selftests'] + ['venv:vf.stubs.selftest:selftest_npstub']
 SPECS['C07']['obligations'] = SPECS['C07']['obligations'] + _gen2
